@@ -222,6 +222,11 @@ def run_shard(shard):
                     # the indentation is measured on a backslash-only line, the error is found on the (unindented) line after it
                     both(f"if x:\n{u1}{u1}y\n{u2}\\\nz\n", "indent-family-backslash-line")
                     both(f"if x:\n{u1}if y:\n{u1}{u1}a\n{u2}\\\nelse:\n{u1}b\n", "indent-family-backslash-line")
+        # errors whose span covers several physical lines, starting at every line number from 1 to 20 (the text of the error is put
+        # together from the lines of the span, looked up by number)
+        for s in MULTI_LINE_SPANS:
+            for lead in range(20):
+                both("y = 0\n" * lead + s, "multi-line-span-at-line")
         for s in gen_xonsh.UNTERMINATED:
             for v in (s, s + "\n", "x = 1\n" + s, s + "\nx = 1\n", "\n\n" + s + "\n   "):
                 both(v, "unterminated")
@@ -284,6 +289,9 @@ def run_shard(shard):
                 both(p, "corpus-prefix")
     return acc.dump()
 
+
+MULTI_LINE_SPANS = ["x = (a\n b)\n", "f(a\n  b)\n", "f(\n  a)(\n  b) = 1\n", "x = [1,\n 2 3]\n", "x = \'\'\'a\nb\'\'\' \'c\' d\n", "foo(a,\n  b) = 3\n", "print(a\n b\n c)\n", "x = {1:\n 2 3:\n 4}\n",
+                    "(a,\n b,\n c) += 1\n", "with (a as b,\n c as d) e: pass\n", "x = f(a for a in b,\n c)\n", "def f(a,\n b=1,\n c): pass\n", "x = $(ls\n -l) = 2\n", "[a\n for a in b\n if c] = 1\n"]
 
 VERSION_GATED = [
     "try:\n    pass\nexcept* A:\n    pass\n", "type X = int\n", "def f[T](x): pass\n", "class A[T]: pass\n", "x = 1\n\n\ntype Y[T] = list[T]\n",
